@@ -23,6 +23,7 @@ func checkC03(c *Check) {
 	checkAssertions(c)
 	checkLoopProgress(c)
 	checkVariableLoops(c)
+	checkRecoveryMovesForward(c, c.L)
 	checkRecursion(c)
 	checkMayNil(c)
 }
@@ -343,8 +344,6 @@ var c03AssertTable = map[string]string{
 	"parser.(*parser).constDeclaration|‹ast.Expression›.(ast.Literal)":                                                    "one reaching definition is a *ast.ListLit, the other is dominated by isLiteral(expr)",
 	"parser.(*parser).structDeclaration|‹ddptypes.Type›.(*ddptypes.StructType)":                                           "operand is the &ddptypes.StructType{} literal assigned a few lines above",
 	"annotators.(*ConstFuncParamAnnotator).VisitFuncDecl|‹ast.Declaration›.(*ast.VarDecl)":                                "function parameters are inserted into the body's symbol table as *ast.VarDecl by parseFunctionBody",
-	"annotators.(*ConstFuncParamAnnotator).VisitFuncCall|‹ast.MetadataAttachment›.(ConstFuncParamMeta)":                   "only one MetadataKind exists and GetMetadataByKind filters by it",
-	"annotators.(*ConstFuncParamAnnotator).overwriteAttachement|‹ast.MetadataAttachment›.(ConstFuncParamMeta)":            "only one MetadataKind exists and GetMetadataByKind filters by it",
 	"ast.toInterfaceSlice|any(‹[]T›[‹int›]).(U)":                                                                          "generic widening helper: every instantiation has T assignable to U",
 	"parser.toInterfaceSlice|any(‹[]T›[‹int›]).(U)":                                                                       "generic widening helper: every instantiation has T assignable to U (the narrowing one, Declaration→*VarDecl, follows filterSlice(isVarDecl))",
 }
@@ -465,6 +464,17 @@ func checkAssertions(c *Check) {
 					}
 				}
 			}
+			// (iv) the operand is the attachment GetMetadataByKind found for the asserted type's kind (wherever the lookup lives)
+			if id, ok := ast.Unparen(ta.X).(*ast.Ident); ok {
+				if call, idx := tupleDef(info, fi.Decl.Body, info.Uses[id]); call != nil && idx == 0 {
+					if fn := Callee(info, call); fn != nil && nameIs(fn, "GetMetadataByKind") && len(call.Args) == 2 {
+						if kindMatches(L, info, call.Args[1], target) {
+							r.OK(key, ta.Pos(), "the operand was looked up by the kind that "+types.TypeString(target, nil)+".Kind() returns, and GetMetadataByKind filters by it")
+							return true
+						}
+					}
+				}
+			}
 			if why, ok := c03AssertTable[key]; ok {
 				r.Ex(key, ta.Pos(), why)
 				return true
@@ -473,6 +483,53 @@ func checkAssertions(c *Check) {
 			return true
 		})
 	})
+}
+
+// kindMatches: kindArg is a constant, and the Kind() method of the asserted type returns exactly that constant on every path.
+func kindMatches(L *Loaded, info *types.Info, kindArg ast.Expr, target types.Type) bool {
+	var want types.Object
+	switch k := ast.Unparen(kindArg).(type) {
+	case *ast.Ident:
+		want = info.Uses[k]
+	case *ast.SelectorExpr:
+		want = info.Uses[k.Sel]
+	}
+	if _, isConst := want.(*types.Const); !isConst {
+		return false
+	}
+	m, _, _ := types.LookupFieldOrMethod(target, true, want.Pkg(), "Kind")
+	fn, ok := m.(*types.Func)
+	if !ok {
+		return false
+	}
+	fi := L.Funcs[fn]
+	if fi == nil || fi.Decl.Body == nil {
+		return false
+	}
+	rets, okAll := 0, true
+	ast.Inspect(fi.Decl.Body, func(n ast.Node) bool {
+		ret, ok := n.(*ast.ReturnStmt)
+		if !ok {
+			return true
+		}
+		rets++
+		if len(ret.Results) != 1 {
+			okAll = false
+			return true
+		}
+		var got types.Object
+		switch r := ast.Unparen(ret.Results[0]).(type) {
+		case *ast.Ident:
+			got = fi.Pkg.TypesInfo.Uses[r]
+		case *ast.SelectorExpr:
+			got = fi.Pkg.TypesInfo.Uses[r.Sel]
+		}
+		if got != want {
+			okAll = false
+		}
+		return true
+	})
+	return rets > 0 && okAll
 }
 
 func derefNamed(t types.Type) (*types.Named, bool) {
